@@ -76,32 +76,44 @@ mutual
     | e :: es => e.fine P ∧ fineL P es
 end
 
+/-- The invariant of the memoisation table, kept abstract in the case analyses of R: a predicate
+    on the table and on the end of the furthest token seen so far, monotone in the latter.  (The
+    concrete invariant `MemoOK` — every entry agrees with the semantics and every token attempted
+    while it was computed ends at or before `maxToken.end` — is defined in Refine.lean.) -/
+class MInv where
+  ok : List MemoEntry → Nat → Prop
+  mono : ∀ {m : List MemoEntry} {e e' : Nat}, e ≤ e' → ok m e → ok m e'
+
+/-- The memo key of rule `n`: the `id` of the first rule of that name. -/
+def Grammar.idOf (G : Grammar) (n : String) : Nat := ((G.find n).map (·.id)).getD 0
+
 /-- Static facts about the program and the run that R relies on. -/
 structure World (P : Program) (cfg : Cfg) (env : CEnv) (G : Grammar) (inp : List Sym) : Prop where
   ast : cfg.ast = true
   envAst : env.ast = true
-  nomemo : cfg.memo = false
   inpOK : ∀ c ∈ inp, c ≠ END
   /-- `CheckAlwaysSucceeds` is sound: a rule called without failure branch never fails. -/
   always : ∀ n, env.always n = true → ∀ p evs, ¬ Eval G cfg.rho inp (.name n) p .fail evs
   /-- Every emitted function is the emission of its rule's body. -/
   rules : ∀ n cr, P.find n = some cr → ∃ (r : Rule) (b : Expr) (kr : Nat) (stb : CSt),
     G.body n = some b ∧ cr = (ruleFunc env r b kr stb).1 ∧ kr < stb.label ∧ Uniq cr ∧
-    (∀ l ∈ jumps cr, env.used l = true) ∧ b.fine P
+    (∀ l ∈ jumps cr, env.used l = true) ∧ b.fine P ∧ r.id = G.idOf n ∧ (∃ e, b = .ipush e n)
+  /-- Memo keys identify rules. -/
+  idInj : ∀ n1 n2, (P.find n1).isSome = true → (P.find n2).isSome = true → G.idOf n1 = G.idOf n2 → n1 = n2
 
 /-- Preconditions on the point of the code and the state where an expression starts. -/
-structure Pre (env : CEnv) (inp : List Sym) (code : Code) (s : St) (p : Nat) : Prop where
+structure Pre [MInv] (env : CEnv) (inp : List Sym) (code : Code) (s : St) (p : Nat) : Prop where
   uniq : Uniq code
   used : ∀ l ∈ jumps code, env.used l = true
   pos : s.pos = p
   ple : p ≤ inp.length
   len : s.ti ≤ s.tree.length
-  memo : s.memo = []
+  memo : MInv.ok s.memo s.maxTok.e
 
 /-- Postcondition of a successful match: position, `tokenIndex`, the live prefix of the token
     buffer grown by exactly the tokens of the derivation, saves of enclosing constructs intact,
     `maxToken` folded over every attempted token. -/
-structure Succ (lbl : Nat) (s : St) (f : Frame) (s' : St) (f' : Frame) (p' : Nat)
+structure Succ [MInv] (lbl : Nat) (s : St) (f : Frame) (s' : St) (f' : Frame) (p' : Nat)
     (toks evs : List Token) : Prop where
   pos : s'.pos = p'
   ti : s'.ti = s.ti + toks.length
@@ -109,19 +121,19 @@ structure Succ (lbl : Nat) (s : St) (f : Frame) (s' : St) (f' : Frame) (p' : Nat
   len : s'.ti ≤ s'.tree.length
   frame : ∀ n, n < lbl → f' n = f n
   maxTok : s'.maxTok = evs.foldl updTok s.maxTok
-  memo : s'.memo = []
+  memo : MInv.ok s'.memo s'.maxTok.e
 
 /-- State in which control arrives at the failure label: the live prefix of the entry state is
     untouched (position and `tokenIndex` are arbitrary — the restore happens at the label site). -/
-structure Failed (lbl : Nat) (s : St) (f : Frame) (s'' : St) (f'' : Frame) (evs : List Token) : Prop where
+structure Failed [MInv] (lbl : Nat) (s : St) (f : Frame) (s'' : St) (f'' : Frame) (evs : List Token) : Prop where
   keep : s''.tree.take s.ti = s.tree.take s.ti
   len : s.ti ≤ s''.tree.length
   frame : ∀ n, n < lbl → f'' n = f n
   maxTok : s''.maxTok = evs.foldl updTok s.maxTok
-  memo : s''.memo = []
+  memo : MInv.ok s''.memo s''.maxTok.e
 
 section
-variable (P : Program) (cfg : Cfg) (env : CEnv) (inp : List Sym)
+variable [MInv] (P : Program) (cfg : Cfg) (env : CEnv) (inp : List Sym)
 
 /-- The emitted code of `e` refines the outcome `res` of the PEG semantics at `p`. -/
 def Good (e : Expr) (p : Nat) (res : Res) (evs : List Token) : Prop :=
@@ -174,7 +186,7 @@ theorem jumps_sub_of_codeAt {code pc c} (h : CodeAt code pc c) : ∀ l ∈ jumps
   intro l hl
   simp [jumps_append, hl]
 
-theorem Pre.usedIn {env inp code s p pc c l} (hp : Pre env inp code s p) (h : CodeAt code pc c)
+theorem Pre.usedIn [MInv] {env inp code s p pc c l} (hp : Pre env inp code s p) (h : CodeAt code pc c)
     (hl : l ∈ jumps c) : env.used l = true :=
   hp.used l (jumps_sub_of_codeAt h l hl)
 
